@@ -420,6 +420,32 @@ pub fn generate(thorough: bool, seed: u64, out: &mut dyn Write) {
             writeln!(out, "edit {} | {}", base, toks.join(" ")).unwrap();
         }
     }
+    // redundant copies, continued (appended: the random stream of the families above is unchanged):
+    // the file header's LOD count (`flc`; the reader loops over the `ModelHeader`'s count).  Unedited
+    // the writer echoes it; `update_headers` bounds its first loop by it: smaller than the real count
+    // or above 3 is the class of the recorded finding `c07.file-lod-count`, in between harmless.
+    // Models with >= 2 meshes / several streams, so that stale mesh offsets show.
+    let n = if thorough { 600 } else { 36 };
+    for i in 0..n {
+        let o = GenOpts { max_meshes: 3, max_vertices: 40, combos: WCOMBOS, v5_only: true, canonical: true };
+        let mut m = gen_model(&mut rng, &o);
+        let base = m.tokens();
+        let lodn = m.lodn as i64;
+        let d: i64 = match i % 6 {
+            0 => -lodn,
+            1 => -1,
+            2 => 3 - lodn,
+            3 => 4 - lodn,
+            4 => 1,
+            _ => 200 + rng.below(50) as i64,
+        };
+        if i % 5 == 4 {
+            writeln!(out, "wredun redun=flc.0.{} {}", d, base).unwrap();
+        } else {
+            let toks = gen_history(&mut rng, &mut m, false, false);
+            writeln!(out, "wredun redun=flc.0.{} {} | {}", d, base, toks.join(" ")).unwrap();
+        }
+    }
 }
 
 // ---------------------------------------------------------------------------------------------
